@@ -375,7 +375,7 @@ func engineNotebookFaults(ctx *Ctx) {
 		pre = u
 		os.MkdirAll(filepath.Dir(h.Personal()), 0o755)
 		vlib.WriteYAML(h.Personal(), pre)
-		fault := []string{"unreadable-0200", "unreadable-0000", "readable-control", "readonly-dir"}[i%4]
+		fault := []string{"unreadable-0200", "unreadable-0000", "readable-control", "readonly-dir", "write-limit", "write-limit"}[i%6]
 		switch fault {
 		case "unreadable-0200":
 			os.Chmod(h.Personal(), 0o200)
@@ -395,6 +395,11 @@ func engineNotebookFaults(ctx *Ctx) {
 		ctx.R.Begin(cs)
 		ctx.R.Eval(1)
 		argv := append([]string{sp, "--reuid", "65534", "--regid", "65534", "--clear-groups", ctx.Wtf}, args...)
+		if fault == "write-limit" { // the write of the new notebook fails after k bytes (file-size limit): quota / disk full
+			k := []int{0, 1, 100, 300, 700}[r.Intn(5)]
+			argv = append([]string{"prlimit", fmt.Sprintf("--fsize=%d", k)}, argv...)
+			cs["write_limit_bytes"] = k
+		}
 		res := h.RunCmd(60*time.Second, nil, argv...)
 		os.Chmod(filepath.Dir(h.Personal()), 0o755)
 		os.Chmod(h.Personal(), 0o644)
